@@ -4,13 +4,14 @@ seed=$1; shift
 props="$@"
 [ -z "$props" ] && props=${seed:0:3}
 if [ "$props" = all ]; then props=$(jq -r '.checks[].property_id' /verif/MANIFEST.json); fi
+mkdir -p /tmp/vscratch_tp; cp /verif/known_findings.json /tmp/vscratch_tp/
 cd /repo || exit 2
 if ! git diff --quiet; then echo "repo dirty"; exit 2; fi
 if git apply --check /verif/seeded/$seed/patch.diff 2>/dev/null; then git apply /verif/seeded/$seed/patch.diff
 elif patch -p1 --dry-run -s < /verif/seeded/$seed/patch.diff >/dev/null 2>&1; then patch -p1 -s < /verif/seeded/$seed/patch.diff
 else echo "SEED $seed: patch does not apply"; exit 2; fi
 for p in $props; do
-  out=$(cd /verif && timeout 300 bin/vorecheck -property $p 2>&1); rc=$?
+  out=$(cd /verif && timeout 300 bin/vorecheck -property $p -verif /tmp/vscratch_tp 2>&1); rc=$?
   echo "SEED $seed property $p exit=$rc $(echo "$out" | grep -c '^violated') violated, $(echo "$out" | grep -c '^UNDECIDED') undecided"
   echo "$out" | grep -E '^(violated|UNDECIDED|ERROR)' | cut -c1-400 | head -8
 done
